@@ -55,12 +55,12 @@ Definition exec_stmt (s : stmt) (st : store) : store :=
   let v := mkval s st in
   fun k => if writes k s then upd s v (st k) else st k.
 
-Definition run (l : list stmt) (st : store) : store := fold_left (fun st s => exec_stmt s st) l st.
+Definition runl (l : list stmt) (st : store) : store := fold_left (fun st s => exec_stmt s st) l st.
 
 (* the order in which a conflict-free flat commit executes: sorted(key=(order, i)) *)
 Definition phase_leb (a b : stmt) : bool := Z.leb (sphase a) (sphase b).
 Definition schedule (l : list stmt) : list stmt := sort phase_leb l.
-Definition final (l : list stmt) : store := run (schedule l) empty.
+Definition final (l : list stmt) : store := runl (schedule l) empty.
 
 (* ------------------------------------------------------------------ executable hypotheses *)
 Definition is_seq (s : stmt) : bool := match smode s with MSeq => true | _ => false end.
@@ -240,7 +240,7 @@ Definition run_variant (ws : list wstmt) (v : val) : option vres :=
       let '(o, log) := commit acts in
       let ex := pick ws (run_ids log) in
       let dl := map (fun wp => wst (fst wp)) decl in
-      Some (mkV o ex dl (run ex empty) (discs_nodup acts)
+      Some (mkV o ex dl (runl ex empty) (discs_nodup acts)
                 (listN_eqb (sids ex) (sids (schedule dl))))
   | _ => None
   end.
